@@ -65,6 +65,7 @@ class ClassInfo:
         self.decorators = {}     # name -> list of decorator names
         self.assigns = {}        # class-level assignments name -> ast expr
         self.properties = {}     # name -> (getter FunctionDef|None, setter FunctionDef|None)
+        self.subscript_assigns = {}  # class-level dict name -> [(const key, value expr)]
         self.base_exprs = node.bases
         self.bases = []          # resolved ClassInfo or str (external)
         self.mro = None
@@ -81,6 +82,9 @@ class ClassInfo:
                     self.methods[n.name] = n
             elif isinstance(n, ast.Assign):
                 for t in n.targets:
+                    if isinstance(t, ast.Subscript) and isinstance(t.value, ast.Name) and isinstance(t.slice, ast.Constant):
+                        # _policies["route_code_prefix"] = _map_route_code_prefix   (class-level dispatch table)
+                        self.subscript_assigns.setdefault(t.value.id, []).append((t.slice.value, n.value))
                     if isinstance(t, ast.Name):
                         self.assigns[t.id] = n.value
                         v = n.value
